@@ -307,6 +307,19 @@ def _rest(run, prog, eng, scan_, mem):
         if ok and len(ac) != len(builds):
             ok = False
             detail = f"{len(ac)} id(s) consumed for {len(builds)} message(s) sent: ids are skipped (an id is taken although nothing is sent for it)"
+        # ... and every id taken leaves: some datagram sent later on the path is built from it (an id that is taken and then
+        # dropped - the message skipped, the buffer replaced - is a gap the subscriber sees).  A path on which a buffer that
+        # holds a built message (>= 16 bytes) tests empty is no execution.
+        from ..util import buffer_tests_feasible
+        feasible = buffer_tests_feasible(p, build_q)
+        if ok and feasible and not p.truncated:
+            pos = {id(e): i for i, e in enumerate(p.events)}
+            for a in ac:
+                if not any(s_.args and pos[id(s_)] > pos[id(a)] and contains(s_.args[0], lambda t, r=a.result: t == r) for s_ in sc):
+                    ok = False
+                    detail = (f"the id taken at {a.loc} is in no datagram sent afterwards on this path ({len(sc)} sent): it is consumed "
+                              "without a message - the next message to that subscriber skips an id")
+                    break
         run.ob("Q3", f"{ns.qual}:one-id-per-message[{len(builds)} event(s)]", ok, loc(ns), detail)
     run.floor("Q3-notify-paths", checked, 2)
 
